@@ -147,7 +147,10 @@ LineFields == {"r", "q", "g", "cur", "conf", "run", "fa", "st", "evq", "buf", "l
 SpecSnapDiff(s, t, sn) ==
   {<<"sn", k>> : k \in RecDiff(SpecSnap(s, t), sn)} \cup EDiff(<<ESnap(s.host, t)>>, <<sn.host>>)
 
-LineDiff(sl, rl) == {<<"line", k>> : k \in {x \in LineFields \cap (DOMAIN sl) \cap (DOMAIN rl) : sl[x] # rl[x]}}
+\* a panic of the code and an error of the specification are compared as such (the texts differ)
+PanicStr(x) == Len(x) >= 2 /\ SubSeq(x, 1, 2) = "P:"
+SameField(k, a, b) == IF k = "r" /\ PanicStr(a) /\ PanicStr(b) THEN TRUE ELSE a = b
+LineDiff(sl, rl) == {<<"line", k>> : k \in {x \in LineFields \cap (DOMAIN sl) \cap (DOMAIN rl) : ~SameField(x, sl[x], rl[x])}}
 
 ---------------------------------------------------------------------------
 Note(r, what) ==
